@@ -67,6 +67,12 @@ CHECKS = {
         note="Trusted: z3, CPython, rsx, pybind. Lambda scopes are not demanded (not listed by the property). Six classes of genuine defects are known findings (positional-only/keyword-only parameters, match captures, nonlocal, global declarations, walrus in comprehensions, comprehensions inside functions); each discrepancy category must be known for a failure to be suppressed.",
         design="§5 C15",
     ),
+    "C08": dict(
+        level="other",
+        text="Two solver-decided layers. (1) Unbounded: rope's live number, string and comment patterns (read from /repo on every run) are translated to z3 regular-expression terms and z3 decides, for strings of any length, that the tokenizer's literal grammar is included in rope's pattern; a sat answer yields a literal that is replayed through get_patched_ast. (2) Bounded, path-exhaustive: patch_ast/write_ast (the _PatchingASTWalker handlers, _Source.consume/_good_token/rfind_token/_handle_parens) run on the templates of corpus K08 (one per grammar production family, several layouts with comments inside brackets, continuation lines, parentheses) whose comment bodies are fully symbolic printable-ASCII strings and whose identifiers are symbolic; write_ast(node) == source is a solver query; at each witness every region must lie inside its parent's, equal the interpreter's node extent and re-parse to the same node.",
+        note="Trusted: z3 (incl. its regular-expression theory), CPython's ast as position oracle, rsx. Free layout of whole programs is outside the claim. One defect fixed (number literals); two region deviations are known findings (Starred, nested format spec).",
+        design="§5 C08",
+    ),
 }
 
 NOT_YET = "check not built yet (see DESIGN.md §5 for the planned decision procedure)"
